@@ -282,7 +282,10 @@ def eval_formulas(base_sheets, formulas, sheet='S', first_col=27, ncols=8, overr
                 before = [tr.get(home, get_column_letter(split_a1(addr)[0]), str(split_a1(addr)[1]), shadow) for addr, home in zip(addrs, homes)]
             ex = tr.executor()
             if overrides:
-                ex.set_cells([Cell(t, c, r, dec(v)) for t, c, r, v in overrides])
+                o_set = outcome(lambda: ex.set_cells([Cell(t, c, r, dec(v)) for t, c, r, v in overrides]))
+                if o_set[0] != 'value':
+                    # the overrides were refused: that is the outcome of every formula that was to be evaluated under them
+                    return [o_set if o_set[0] == 'timeout' else (o_set[0], o_set[1], 'set_cells: ' + str(o_set[2]))] * len(addrs)
             for addr, home in zip(addrs, homes):
                 c, r = split_a1(addr)
                 res.append(tr.get(home, get_column_letter(c), str(r), ex))
